@@ -230,6 +230,15 @@ func c07ScriptSet() [][2][]byte {
 				add(u, l)
 			}
 		}
+		// signature checks in scripts that go on after a top-level OP_RETURN: every one-byte tail
+		for b := 0; b < 256; b++ {
+			add(pushAll(sigLike), bytesJoin(minimalPush(k.comp), []byte{0xac, 0x6a, byte(b)}))
+			add(pushAll([]byte{}, sigLike), bytesJoin([]byte{0x51}, minimalPush(k.comp), []byte{0x51, 0xae, 0x6a, byte(b)}))
+		}
+		for _, tl := range [][]byte{{}, {0x01, 0x01}, {0x4c, 0x00}, {0x4d, 0x00}, {0x01, 0x02, 0x03}, {0x4e, 0xff, 0xff, 0xff, 0xff}} {
+			add(pushAll(sigLike), bytesJoin(minimalPush(k.comp), []byte{0xac, 0x6a}, tl))
+			add(bytesJoin(pushAll(sigLike), []byte{0x6a}, tl), bytesJoin(minimalPush(k.comp), []byte{0xac}))
+		}
 		add([]byte{0x4c}, []byte{0x51})
 		add([]byte{0x51}, []byte{0x4e, 0xff, 0xff, 0xff, 0x7f})
 		add([]byte{0x51}, []byte{0x4e, 0xff, 0xff, 0xff, 0xff})
@@ -335,7 +344,7 @@ func c07At(thorough bool, i uint64) c07Case {
 
 func init() {
 	p := register(&Prop{ID: "C07", Level: "model_checking",
-		Rule: "exhaustive exploration of Engine.Execute in isolated child processes (panic recovered per case; log.Fatal / out-of-memory / hang attributed through a progress marker and reproduced twice): (A) ALL 65,536 flag words x 64 (quick) / 256 (thorough) representative script pairs with a transaction; (B) ~1,750 script pairs (every opcode with 0/1/2/3 operands and inside an unexecuted branch, unlocking scripts that execute OP_CODESEPARATOR or fill the alt stack and end early against short signature-checking locking scripts, standard templates, multisig with junk signatures/keys/counts incl. 2^31-1 and 2^32, every malformed-signature class x key encodings, truncated pushes) x 16 flag words x 9 transaction contexts (none; 1-in/1-out; 2-in/0-out; other inputs unsigned; 31-byte previous txid built through JSON; nil previous output; previous output without script; nil tx; tx without inputs) x input index {-1,0,1,2,2^31-1} x debugger {none, recording, fan-out, scribbling}; (C) every byte string of length<=2 as locking script x 3 unlocking seeds x 4 flag words x with/without transaction; (D) one Engine value executing each of the script pairs twice, in every ordered pair of the 9 contexts x 3 flag words. Oracle: Execute returns nil or an error, and allocates less than 32 MiB. The lockstep checks C05/C08/C19 additionally run ~10^7 executions under the same panic containment. states = distinct (context, debugger, outcome class) combinations; transitions = executions",
+		Rule: "exhaustive exploration of Engine.Execute in isolated child processes (panic recovered per case; log.Fatal / out-of-memory / hang attributed through a progress marker and reproduced twice): (A) ALL 65,536 flag words x 64 (quick) / 256 (thorough) representative script pairs with a transaction; (B) ~2,300 script pairs (every opcode with 0/1/2/3 operands and inside an unexecuted branch, signature checks followed by a top-level OP_RETURN and every one-byte tail, unlocking scripts that execute OP_CODESEPARATOR or fill the alt stack and end early against short signature-checking locking scripts, standard templates, multisig with junk signatures/keys/counts incl. 2^31-1 and 2^32, every malformed-signature class x key encodings, truncated pushes) x 16 flag words x 9 transaction contexts (none; 1-in/1-out; 2-in/0-out; other inputs unsigned; 31-byte previous txid built through JSON; nil previous output; previous output without script; nil tx; tx without inputs) x input index {-1,0,1,2,2^31-1} x debugger {none, recording, fan-out, scribbling}; (C) every byte string of length<=2 as locking script x 3 unlocking seeds x 4 flag words x with/without transaction; (D) one Engine value executing each of the script pairs twice, in every ordered pair of the 9 contexts x 3 flag words. Oracle: Execute returns nil or an error, and allocates less than 32 MiB. The lockstep checks C05/C08/C19 additionally run ~10^7 executions under the same panic containment. states = distinct (context, debugger, outcome class) combinations; transitions = executions",
 	})
 	NewSpace(p, "c07", c07Check)
 	worker.Register(&worker.Space{
